@@ -26,7 +26,7 @@ PROPS = {
         modelled={"hand_modelled": ["Assertz", "Asserta", "assertMerge", "Retract", "Abolish", "rulify", "clauses.call", "compile", "clauses.indexOf", "clause.is", "piArg", "Arrive"],
                   "regenerated": ["bootstrap.pl retractall/1"], "observed_only": ["Clause", "FindAll", "Solutions"]},
         assumptions=["stored clause bodies succeed exactly once (facts, `true`, `(true;true)`)",
-                     "variables of a stored clause are not bound later by the goal that asserted it (D10 is C10's subject; the generators assert ground or atomic-guarded clauses inside nested goals)"],
+                     "a stored clause is read through a copy renamed apart (repair of D10, commit 9f85128 in the repo; C10's subject) — the model renames at every read"],
     ),
     "C18": dict(
         level_text="Proof: the operator-table state machine (Op/validateOp/CurrentOp and the operators methods) is modelled in Lean; for ALL histories of op/3 calls with arbitrary argument terms the ISO invariant (C18_inv), atomicity of failed updates (C18_atomic), the exact effect of successful updates (C18_update_exact: latest wins, 0 removes, other classes kept) and exactness of current_op/3 (C18_current_op_exact) are kernel-checked theorems, the default table being regenerated from bootstrap.pl. The model is tied to the Go code by the c18.hist correspondence stream (impl vs model, plus an independent executable ISO specification as oracle, plus reader/writer probes).",
